@@ -577,8 +577,8 @@ def run(chk, tier):
         (r'TracerState::probe_udp_data$', 'Overflow:Add', 'Add usize', 'initial_sequence (u16) + round counter in usize'),
         (r'Strategy::send_request$', 'arith-trait', 'sub', 'ttl − max_received_ttl: only probes issued with ttl − 1 of an earlier value of ttl are ever completed, so max_received_ttl < ttl (C03.R4 transition table, C06.R2 ttl effects)'),
         (r'InternalBitFlags::all$', 'BoundsCheck', 'index', 'bitflags!-generated: constant indices into the constant FLAGS table'),
-        (r'checksum::ipv6_checksum$', 'Overflow:Add', 'Add u32', 'pseudo-header words + length (≤ 1024 on this path) + word sum (< 2^26) cannot reach 2^32'),
-        (r'checksum::ipv4_checksum$', 'Overflow:Add', 'Add u32', 'pseudo-header words + length (≤ 1024 on this path) + word sum (< 2^26) cannot reach 2^32'),
+        (r'within:checksum::ipv6_checksum$', 'Overflow:Add', 'Add u32', 'pseudo-header words + length (≤ 1024 on this path) + word sum (< 2^26) cannot reach 2^32'),
+        (r'within:checksum::ipv4_checksum$', 'Overflow:Add', 'Add u32', 'pseudo-header words + length (≤ 1024 on this path) + word sum (< 2^26) cannot reach 2^32'),
         (r'checksum::sum_be_words$', 'Overflow:Add', 'Add u32', 'u32 sum of 16-bit words of a packet of at most MAX_PACKET_SIZE octets'),
         (r'checksum::sum_be_words$', 'Overflow:Add', 'Add usize', 'word counter i ≤ len/2'),
         (r'Ipv4Packet::set_payload$', 'slice-index', '', 'buf[20 + options..]: make_ipv4_packet sets IHL = 5 before set_payload and sizes the buffer as 20 + payload (C11.R1 setter order, C11.R2 length equalities)'),
@@ -587,7 +587,7 @@ def run(chk, tier):
         (r'Ipv4::make_ipv4_packet$', 'slice-index', '', 'ipv4_buf[..20 + |payload|] of a MAX_PACKET_SIZE buffer: the inner packet is packet_size − 20 octets under the MIN..=MAX_PACKET_SIZE guard (C11.R2 length equalities, C11.R4 size guards), the Paris payload is 2 octets'),
         (r'Ipv6::make_udp_packet$', 'slice-index', '', 'udp_buf[..8 + |payload|] of a MAX_PACKET_SIZE − 40 buffer: |payload| = packet_size − 48 under the size guard, 2 for Paris, MAGIC + offset for Dublin (C11.R2 / R4, C07.R6)'),
         (r'Ipv6::dispatch_udp_probe_raw$', 'slice-index', '', 'dublin_payload[..MAGIC + (sequence − initial_sequence)]: proved at this site by C07.R6 (imported) under the round bound offset ≤ BUFFER_SIZE − 1 + MAX_TTL'),
-        (r'dispatch_udp_probe_raw::\{closure#\d+\}$', 'BoundsCheck', 'index', 'payload()[0..2] of the Paris datagram, whose payload is the 2-octet sequence (C11.R3 Paris pair)'),
+        (r'within:Ipv[46]::dispatch_udp_probe_raw$||::\{closure#\d+\}$', 'BoundsCheck', 'index', 'payload()[0..2] of the Paris datagram, whose payload is the 2-octet sequence (C11.R3 Paris pair)'),
     ]
     audit_scope(chk, prog, cg, roots, scope, tier, 'R7', 'R7t', ALLOW7, [], hints=hints, invariants=[inv7],
                 loop_allow=[(r'Strategy::run$', 'the tracing loop: runs until finished(max_rounds) (C09.R1) or an error')])
